@@ -186,12 +186,15 @@ class LazySectionRef:
     def collapse(self):
         """:return: :obj:`pkgcore.config.central.CollapsedConfig`."""
         if self.cached_config is None:
-            config = self.cached_config = self._collapse()
+            config = self._collapse()
             if self.typename is not None and config.type.name != self.typename:
                 raise errors.ConfigurationError(
                     f"reference {self.name!r} should be of type "
                     f"{self.typename!r}, got {config.type.name!r}"
                 )
+            # only remember the config once it passed the type check, otherwise
+            # the next call would hand out the wrongly typed section
+            self.cached_config = config
         return self.cached_config
 
     def instantiate(self) -> typing.Any:
